@@ -9,7 +9,9 @@ for f in sorted(glob.glob(os.path.join(VERIF, "seeded", "*", "meta.json"))):
     rows.append((m["id"], m["property"], (m.get("summary") or "").replace("|", "/").replace("\n", " "),
                  (m.get("needs") or "").replace("|", "/").replace("\n", " "),
                  "detected" + (" (correspondence only: no-failing-input-found)" if nf and m["detected"] else "")
-                 if m["detected"] else "MISSED", m.get("detected_after", "")))
+                 if m["detected"] else ("reported by " + m["detected_by"] if m.get("detected_by") else
+                                        ("not reported: " + m["not_detected_reason"] if m.get("not_detected_reason") else "MISSED")),
+                 m.get("detected_after", "")))
 out = ["# Seeded changes", "",
        "Each directory holds one change to PrefLib/preflibtools written by a fresh sub-agent that was given only the",
        "text of one property and a private worktree (nothing from /verif): `patch.diff` (apply with",
@@ -17,7 +19,9 @@ out = ["# Seeded changes", "",
        "needs to manifest, what was run to confirm it, and what the registered check printed).  Every change was",
        "confirmed independently: demo on the clean tree (exit 0) and with the change (exit 1), whole pytest suite with",
        "the change (102 passed, only the two offline URL tests fail).  None of them is committed in /repo.", "",
-       f"{sum(1 for r in rows if r[4].startswith('detected'))} of {len(rows)} are reported by the quick check of their property.", "",
+       f"{sum(1 for r in rows if r[4].startswith('detected'))} of {len(rows)} are reported by the quick check of their property, "
+       f"{sum(1 for r in rows if r[4].startswith('reported by'))} by the quick check of another property, "
+       f"{sum(1 for r in rows if r[4].startswith('not reported'))} deliberately not (outside the property's inputs).", "",
        "| id | property | change | needs | quick check | note |", "|---|---|---|---|---|---|"]
 for r in rows:
     out.append("| " + " | ".join(str(x) for x in r) + " |")
